@@ -7,7 +7,7 @@ import random
 import vlib
 from props import fam_geo as F
 
-KINDS = ['normal', 'normal', 'oblique', 'tiny', 'tiny', 'noncrystal', 'ncs', 'bigk']
+KINDS = ['normal', 'normal', 'oblique', 'tiny', 'tiny', 'noncrystal', 'ncs', 'bigk', 'elongated', 'elongated']
 
 
 MANIFEST = {'technique': 'Coq proof of the integer walk (lia/nia) and of its completeness over the reals (Cauchy-Schwarz, floor) + exact differential check of the walk observed through for_each_cell + brute-force oracle on gemmi', 'text': 'Atoms on cell faces, a few 1e-17 below or above them, are generated on purpose (the wrapped fractional coordinate then sits at the very end of [0,1)). Theorems: the shift lambda is floor division with a bin index in [0,n); the walk visits each (bin, lattice shift) of the (2ku+1)(2kv+1)(2kw+1) window exactly once, also for axes with 1 or 2 bins (_partial: integer core only); the clamped (non-periodic) branch visits exactly the existing bins; bins_to_visit spans k radii. The walk model is compared exactly with the bins/shifts observed through the public callback. Oracle on gemmi: find_atoms / find_neighbors / for_each / find_nearest_atom vs brute force over atoms x symmetry images x lattice translations (multiset equality, 1e-7 guard band) for random models in 12 space groups, strongly oblique cells, tiny cells with radius up to 2.5x the edge, non-crystal boxes with NCS, several build radii for the same query. COMPLETENESS OVER R is a theorem: along each axis the fractional coordinate is an affine function whose linear part has the reciprocal cell length, so (Cauchy-Schwarz) an image within R of the query differs from it by at most R*ar*n bins, hence its bin is in the window the walk visits, with exactly its lattice shift (any cell skew, any n incl. 1, any k); the three axes combine through the bijection theorem. Soundness (distance filter) and find_nearest_atom minimality are decided by the oracle only.', 'note': 'Trusted: Coq kernel; extraction; harness. Axioms: only those of the standard library Reals (ClassicalDedekindReals.sig_forall_dec, sig_not_dec, functional_extensionality_dep) in the two theorems over R; the integer theorems are axiom-free. Float rounding of the fractional coordinates and the 1e-9 guard of bins_to_visit are outside the real-number theorem; float ties at bin boundaries are excluded from the oracle by its guard band.'}
